@@ -13,7 +13,7 @@ theorem Sim_init {isn : Nat} (h : isn < 4294967296) : Sim isn (Tracker.init isn)
 
 /-- the wrapped run is simulated by the abstract run and the abstract run keeps its invariant -/
 theorem run_sim {s : Bytes} {isn : Nat} (hN : s.length < 2147483648) (hisn : isn < 4294967296) {h : List SegD}
-    (hok : HistOK s h) : Sim isn (runModel isn h) (runAbstract h) := by
+    (hok : HistOK s h) : Sim isn (runModel isn h) (runAbstract false h) := by
   induction h with
   | nil => exact Sim_init hisn
   | cons g h ih =>
